@@ -1,6 +1,6 @@
 CONSTANTS Deps = {"d1", "d2"}  TSvcs = {"s1"}  RSvcs = {"s1"}  NPorts = 1  Vals = {"1", "b"}
-          FLens = {1, 2, 3, 4}  FDistinct = TRUE  FChains = {"1", "2", "3", "11"}  FPreds = 1  FRestPreds = 1
-          CLens = {1, 2, 3, 4}  CDistinct = FALSE  CChains = {"0", "1"}  NJobs = 2  CapVals = {0, 1}
+          FLens = {1, 2, 3, 4}  FDistinct = TRUE  FChains = {"1", "2", "3", "11"}  FPreds = 1  FRestPreds = 0
+          CLens = {1, 2, 3, 4}  CDistinct = TRUE  CChains = {"0", "1"}  NJobs = 2  CapVals = {0, 1}
           UseQueries = TRUE
 INIT Init
 NEXT GenNext
